@@ -27,6 +27,7 @@ type aval struct {
 type vsaExit struct {
 	kind   string // return, panic, edge
 	to     *ssa.BasicBlock
+	from   *ssa.BasicBlock
 	result []aval // return operands
 	cell   aval   // value of the designated memory cell at exit
 }
@@ -48,7 +49,31 @@ type vsa struct {
 	stores   []vsaStore           // stores to addresses other than the cell, with per-point index/value tables
 	exits    []vsaExit // per input
 	err      string
+	errValue ssa.Value // the value a branch needed but the domain does not determine
 	typeOfIn types.Type
+	reenter  *ssa.BasicBlock                          // edges into this block (the loop header) leave the region
+	onInstr  func(in ssa.Instruction, set []bool) // observer for side effects
+}
+
+// valueAt returns the abstract value of v at point k after run().
+func (a *vsa) valueAt(v ssa.Value, k int) aval {
+	if cv := constVal(v); cv != nil {
+		if cv.Kind() == constant.Int {
+			x, _ := constant.Int64Val(cv)
+			return aval{true, x}
+		}
+		if cv.Kind() == constant.Bool {
+			if constant.BoolVal(cv) {
+				return aval{true, 1}
+			}
+			return aval{true, 0}
+		}
+		return aval{}
+	}
+	if t, ok := a.vals[v]; ok {
+		return t[k]
+	}
+	return aval{}
 }
 
 func (a *vsa) in(b *ssa.BasicBlock) bool { return a.region == nil || a.region[b] }
@@ -81,7 +106,7 @@ func (a *vsa) run() {
 	a.vals = map[ssa.Value][]aval{}
 	a.exits = make([]vsaExit, n)
 	// topological order of the region from entry
-	order, ok := topo(a.entry, a.in)
+	order, ok := topo(a.entry, func(b *ssa.BasicBlock) bool { return a.in(b) && b != a.reenter })
 	if !ok {
 		a.err = "region contains a loop"
 		return
@@ -145,6 +170,9 @@ func (a *vsa) run() {
 		for _, ins := range b.Instrs {
 			if v, ok := ins.(ssa.Value); ok && isPreset(v) {
 				continue
+			}
+			if a.onInstr != nil {
+				a.onInstr(ins, set)
 			}
 			switch x := ins.(type) {
 			case *ssa.Call:
@@ -329,6 +357,7 @@ func (a *vsa) run() {
 						cv := get(x.Cond, k)
 						if !cv.ok {
 							a.err = fmt.Sprintf("branch at %s depends on a value outside the domain for input %d", a.c.pos(x.Cond.Pos()), a.dom[k])
+							a.errValue = x.Cond
 							return
 						}
 						if (cv.v != 0) == (si == 0) {
@@ -382,8 +411,8 @@ type vsaStore struct {
 type lookupVal struct{ *ssa.Lookup }
 
 func (a *vsa) flow(b, s *ssa.BasicBlock, k int, cell aval, inSet map[*ssa.BasicBlock][]bool, from map[*ssa.BasicBlock][]*ssa.BasicBlock, cellIn map[*ssa.BasicBlock][]aval) {
-	if !a.in(s) {
-		a.exits[k] = vsaExit{kind: "edge", to: s, cell: cell}
+	if !a.in(s) || s == a.reenter {
+		a.exits[k] = vsaExit{kind: "edge", to: s, from: b, cell: cell}
 		return
 	}
 	n := len(a.dom)
